@@ -28,6 +28,10 @@ Blocks == {
   Blk("redefinition", <<>>, <<SMem("xm", "signal-M"), SMem("xm", "signal-M")>>, "xm"),
   Blk("assign_immutable", <<>>, <<XA, SRaw("xa = 7;")>>, "xa"),
   Blk("assign_immutable", <<>>, <<SInt("xk", Num(3)), SRaw("xk = 4;")>>, "xk"),
+  Blk("assign_immutable", <<SFunc("bump", <<[ty |-> "Signal", n |-> "pv"]>>, <<SRaw("pv = pv + 1;")>>, Bin("*", Ref("pv"), Num(2)))>>, <<XA, SLet("Signal", "xr", CallE("bump", <<RA>>))>>, "pv"),
+  Blk("assign_immutable", <<SFunc("bumpi", <<[ty |-> "int", n |-> "pn"], [ty |-> "Signal", n |-> "ps"]>>, <<SRaw("pn = pn + 1;")>>, Bin("+", Ref("ps"), Ref("pn")))>>, <<XA, SLet("Signal", "xr", CallE("bumpi", <<Num(2), RA>>))>>, "pn"),
+  Blk("assign_immutable", <<>>, <<XA, SFor("xi", IRange(Num(0), Num(2), Num(0)), <<SRaw("xi = 5;")>>)>>, "xi"),
+  Blk("assign_immutable", <<>>, <<XA, SLet("Signal", "xs", Bin("+", RA, Num(1))), SFor("xi", IRange(Num(0), Num(2), Num(0)), <<SRaw("xs = xa;")>>)>>, "xs"),
   Blk("wrong_kind", <<>>, <<XA, XB, SLet("Signal", "xr", BLit(<<RA, RB>>))>>, ""),
   Blk("wrong_kind", <<>>, <<XA, SInt("xk", RA)>>, ""),
   Blk("wrong_kind", <<>>, <<XA, SRaw("Entity xe = xa + 1;")>>, ""),
